@@ -206,7 +206,7 @@ func (as *adaptiveShedder) maxFlight() int64 {
 	// maxQPS = maxPASS * windows
 	// minRT = 毫秒单位的最小平均响应时间
 	// maxQPS * minRT / 每秒的毫秒数
-	return int64(math.Max(1, float64(as.maxPass())*as.windows*(as.minRt()/1e3)))
+	return int64(math.Max(1, float64(as.maxPass())*as.windows*as.minRt()/1e3))
 }
 
 func (as *adaptiveShedder) maxPass() int64 {
